@@ -32,6 +32,12 @@ func main() {
 		modeC10Boot()
 	case "c07":
 		modeC07(*thorough)
+	case "c12":
+		modeC12(*thorough)
+	case "c08":
+		modeC08(*thorough, "c08")
+	case "c19":
+		modeC08(*thorough, "c19")
 	default:
 		panic("unknown mode")
 	}
